@@ -308,3 +308,62 @@ QUERIES.append(
               "symbolic exit codes and event script; a task is started only when every prerequisite task completed successfully"})
 META["real"] = META["real"] + LP.META_COMMON["real"]
 META["stubs"] = META["stubs"] + LP.META_COMMON["stubs"]
+
+
+# ---------------------------------------------------------------- Q7s  ids as symbolic digit strings (string theory), Slurm / SGE / LSF argument construction
+def _q7s(a, b):
+    """Two prerequisite ids as symbolic strings of 1..3 digits: the dependency argument must contain both,
+    whole, separated the way the scheduler's syntax requires, and nothing else."""
+    be = q.SHARD["be"]
+    if not (1 <= len(a) and len(a) <= q.SHARD["maxlen"] and 1 <= len(b) and len(b) <= q.SHARD["maxlen"]):
+        return q.SKIP
+    for s_ in (a, b):
+        for ch in s_:
+            if not ("0" <= ch and ch <= "9"):
+                return q.SKIP
+    if a == b:
+        return q.SKIP
+    captured = []
+
+    def fake_call(exe, *args, input=None):
+        captured.append((exe, args))
+        return {"sbatch": "77\n", "qsub": "77\n", "bsub": "Job <77> is submitted to queue <normal>.\n"}[exe]
+    mod = {"slurm": slurm_mod, "sge": sge_mod, "lsf": lsf_mod}[be]
+    real_call = mod.call
+    mod.call = fake_call
+    vfs_w = vfs.VFS()
+    vfs_w.dirs.update({ROOT, ROOT + "/.gwf", ROOT + "/.gwf/logs"})
+    vfs.install(vfs_w)
+    try:
+        ops = _make_ops(be)
+        t = T7S
+        t.options = {"cores": 1, "memory": "1g", "queue": "normal"}
+        ops.submit_target(t, [a, b])
+        exe, args = captured[-1]
+        if be == "slurm":
+            want = ["--parsable", "--dependency=afterok:" + a + ":" + b]
+        elif be == "sge":
+            want = ["-terse", "-hold_jid", a + "," + b]
+        else:
+            want = ["-w", "done(" + a + ") && done(" + b + ")"]
+        if list(args) != want:
+            return "scheduler arguments %r, expected %r" % (list(args), want)
+        return ""
+    finally:
+        mod.call = real_call
+        vfs.uninstall()
+
+
+def q7s(a: str, b: str) -> str:
+    """
+    post: _ == ""
+    """
+    return q.run(_q7s, (a, b))
+
+
+T7S = Target(name="T", inputs=[], outputs=[], options={}, working_dir=ROOT, spec="echo hi")
+
+QUERIES.append(
+    {"name": "Q7s", "fn": q7s, "shards": {"quick": [{"be": "slurm", "maxlen": 2}], "thorough": [{"be": b, "maxlen": 2} for b in ("slurm", "sge", "lsf")] + [{"be": "slurm", "maxlen": 3}]}, "timeout": 900,
+     "bound": "two prerequisite ids as symbolic digit strings of length 1..2 (Slurm in quick; all three and length 3 for Slurm in thorough) (string theory); the argument vector handed to sbatch/qsub/bsub equals the scheduler's syntax built from exactly these ids "
+              "(here backends.<x>.call is replaced by a recorder, the only place where a module-level name of /repo is rebound)"})
